@@ -182,8 +182,26 @@ def explore(pid, tier, seed, verdict, full=True):
             verdict.violation("tsan-report", "ThreadSanitizer reported: " + dr.stderr[dr.stderr.find("WARNING"):][:1500])
         elif dr.returncode != 0:
             verdict.violation("replay-crash:rc%d" % dr.returncode, "replay_loader died: " + dr.stderr[-500:])
+        # the very first loads of a process (the lazily created cache does not exist yet): the canonical
+        # attack schedules in fresh processes
+        evs_fresh = []
+        if full:
+            fresh_b = os.path.join(work, "fresh.txt")
+            plans_f = [["Call t1 a", "Call t2 a", "Check1 t1 -", "Check1 t2 -", "Construct t1 -", "Construct t2 -", "FactoryReturn t1 -", "Insert t1 -", "FactoryReturn t2 -", "Insert t2 -"],
+                       ["Call t1 a", "Check1 t1 -", "Construct t1 -", "Call t2 a", "Check1 t2 -", "Construct t2 -", "FactoryReturn t1 -", "Insert t1 -", "FactoryReturn t2 -", "Insert t2 -"],
+                       ["Call t1 fx", "Call t2 fx", "Check1 t1 -", "Check1 t2 -", "Construct t1 -", "Construct t2 -", "Insert t1 -", "Insert t2 -"],
+                       ["Call t1 a", "Call t2 bad", "Check1 t1 -", "Check1 t2 -", "Construct t1 -", "Construct t2 -", "FactoryReturn t2 -", "Insert t2 -", "FactoryReturn t1 -", "Insert t1 -"]]
+            for i, pl in enumerate(plans_f * (1 if tier == "quick" else 4)):
+                open(fresh_b, "w").write("B %d A\n" % (900000 + i) + "".join("S %s\n" % x for x in pl) + "E\n")
+                fo = os.path.join(work, "fresh.%d.ndjson" % i)
+                fr = V.run_driver(exe, [fresh_b, fo, good, "--fresh"], timeout=300, env={"TSAN_OPTIONS": "halt_on_error=0:report_signal_unsafe=0"})
+                if "ThreadSanitizer" in fr.stderr:
+                    verdict.violation("tsan-report", "ThreadSanitizer reported (fresh process): " + fr.stderr[fr.stderr.find("WARNING"):][:1500])
+                if os.path.exists(fo):
+                    evs_fresh += open(fo).read().splitlines()
+            st["fresh_process_attacks"] = len(evs_fresh)
         # split the log at LBegin boundaries into shards for parallel validation
-        evs = open(out).read().splitlines()
+        evs = open(out).read().splitlines() + evs_fresh
         events = len(evs)
         nsh = max(2, V.NCPU - 2)
         chunks = [[] for _ in range(nsh)]
@@ -222,10 +240,15 @@ def explore(pid, tier, seed, verdict, full=True):
                 k = e["e"]
                 if k == "LStep":
                     key = "LStep:%s:%s" % (e["act"], "factory" if (e["overlap"] or e["wrongthread"] or e["act"] in ("Construct", "FactoryReturn")) else "state")
+                elif k == "Attack":
+                    fac = e["overlap"] or e["wrongthread"] or e["maxcalls"] > 1
+                    res_bad = e.get("agree", 1) == 0 or e.get("okmismatch", 0) == 1
+                    key = "Attack:" + ("factory" if fac else "results")
                 else:
                     key = k
-                relevant = (pid == "C20" and (k in ("Attack", "SFacEnter") or k == "LStep")) or \
-                           (pid == "C13" and k in ("LStep", "SRet", "SFacEnter")) or \
+                    fac = res_bad = False
+                relevant = (pid == "C20" and ((k == "Attack" and fac) or k in ("SFacEnter", "LStep"))) or \
+                           (pid == "C13" and ((k == "Attack" and res_bad) or k in ("LStep", "SRet", "SFacEnter"))) or \
                            (pid == "C14" and k in ("LStep", "SRet", "SFacEnter"))      # the name cache is invisible
                 if pid == "C14":
                     key = "cache:" + key
